@@ -194,6 +194,54 @@ def load_harness(module_name, fn_name, harness_dir):
     return getattr(mod, fn_name)
 
 
+def replay_redos(rep):
+    """time the real `re` engine on prefix + pump^n + suffix; reproduced = measured exponential growth"""
+    import re
+    import time
+    import importlib
+    pat = None
+    if rep.get("ref"):
+        try:
+            o = importlib.import_module(rep["ref"][0])
+            for k in rep["ref"][1:]:
+                o = o[k] if isinstance(k, int) else getattr(o, k)
+            if isinstance(o, re.Pattern) and o.pattern == rep["pattern"]:
+                pat = o
+        except Exception:
+            pat = None
+    if pat is None:
+        pat = re.compile(rep["pattern"])
+    prefix, pump = rep["prefix"], rep["pump"]
+    suffix = None
+    for cand in ("!", "\x00", "\n!", " ", "\u00e9!"):
+        if pat.match(prefix + pump * 3 + cand) is None and pat.match(prefix + pump * 4 + cand) is None:
+            suffix = cand
+            break
+    res = {"reproduced": False, "label": "redos", "failed": [], "exception": None, "assume_failed": False, "bad_input": [], "diverged": []}
+    if suffix is None:
+        res["error"] = "no failing suffix found"
+        return res
+    times = []
+    n = 4
+    while n <= 200 and len(prefix) + n * len(pump) <= 400:
+        s = prefix + pump * n + suffix
+        t = time.perf_counter()
+        pat.match(s)
+        dt = time.perf_counter() - t
+        times.append((n, dt, len(s)))
+        if dt > 1.0:
+            break
+        n += 1
+    res["n"], res["seconds"], res["subject_len"] = times[-1][0], round(times[-1][1], 3), times[-1][2]
+    res["suffix"] = suffix
+    # exponential: above one second on a short subject, and the last steps each at least ~1.5x the previous one
+    if times[-1][1] > 1.0 and len(times) >= 4:
+        ratios = [times[i][1] / max(times[i - 1][1], 1e-9) for i in range(len(times) - 3, len(times))]
+        res["ratios"] = [round(r, 2) for r in ratios]
+        res["reproduced"] = all(r >= 1.4 for r in ratios) and times[-1][2] <= 400
+    return res
+
+
 def main(argv):
     """python native.py <replay.json> : re-run the recorded counterexample natively and report"""
     path = argv[1]
@@ -202,6 +250,11 @@ def main(argv):
     for p in rep.get("sys_path", []):
         if p not in sys.path:
             sys.path.insert(0, p)
+    if rep.get("kind") == "redos":
+        res = replay_redos(rep)
+        json.dump(res, sys.stdout, indent=1, sort_keys=True, default=str)
+        sys.stdout.write("\n")
+        return 0 if res["reproduced"] else 3
     fn = load_harness(rep["module"], rep["harness"], rep["harness_dir"])
     res = run_native(fn, rep["inputs"], rep.get("params", {}))
     label = rep.get("label")
